@@ -52,7 +52,7 @@ template <class Solver> void run(Case &c, const std::string &nm, const Csr<doubl
 int main(int argc, char **argv) {
     vf::init(argc, argv);
     vf::obs_add("threads_seen", std::to_string(omp_get_max_threads()));
-    long N = vf::tier(72, 720);
+    long N = vf::tier(144, 1440);
     for (long idx = 0; idx < N; ++idx) {
         if (!vf::selected("mixed", idx)) continue;
         Rng r(vf::case_seed("mixed", idx)); const char *co = COARS[idx % 4], *re = RELAX[(idx / 4) % 9]; bool small = (idx / 36) % 2 == 1;
